@@ -18,6 +18,10 @@ FAMILIES = [
     ("", "func r1(n){ if n <= 0 { return d1000 }; return r1(n-1) + d1000 }; r1(3)"),
     ("", "&cv = 2d1000; cv + cv"), ("", "&cw = d1000; func h1(){cw + d1000}; h1()"),
     ("", "`{2d100}-{d100}`"), ("", "d1000000 > 500000 ? d100 : d10000"),
+    # a computed value with dice defined AND read inside a function body; the random array methods inside functions / computed values
+    ("", "func fc1(){ &xc = d1000000000; [xc,xc,xc] }; fc1()"), ("", "func fr1(){ [1,2,3,4,5,6,7,8].rand() + d1000 }; fr1()"),
+    ("", "&cr1 = [1,2,3,4,5,6,7,8].randSize(3); [cr1, cr1]"), ("", "func fs1(){ [1,2,3,4,5,6,7,8].shuffle() }; [fs1(), fs1()]"),
+    ("", "func fo1(){ func fi1(){ [1,2,3,4,5,6,7,8].rand() }; fi1() + fi1() }; fo1()"),
 ]
 
 
@@ -95,7 +99,7 @@ def main(tier):
     for _ in range(300 if tier == "thorough" else 80):
         c1, p = gen_prog(r)
         c2, q = gen_prog(r)
-        if any(tok in p and tok in q for tok in ("f1", "g1", "r1", "cv", "cw", "h1")):
+        if any(tok in p and tok in q for tok in ("f1", "g1", "r1", "cv", "cw", "h1", "fc1", "fr1", "cr1", "fs1", "fo1")):
             continue
         cfg = "".join(sorted(set(c1 + c2)))
         seed = f"{r.getrandbits(128):032x}"
@@ -220,6 +224,23 @@ def main(tier):
         if parts[0] != parts[1]:
             run.violation("reconfigured-context-differs-from-fresh", {"cfg_before": cfg1, "cfg": cfg2, "seed1": s1, "seed2": s2, "first_program": p,
                                                                       "second_program": q, "reconfigured": parts[0][:300], "fresh": parts[1][:300]})
+    # ---- a generator OBJECT that two contexts share (a copied context struct, a RandSrc handed over): giving one of them its own seed
+    #      through Seed + Init must not rewrite the other's stream
+    sl, sm = [], []
+    for _ in range(40 if tier == "thorough" else 12):
+        cfgp, p = gen_prog(r)
+        for mode in ("copy", "hand"):
+            sl.append(f"sharedsrc {cfgp},L300000 {r.getrandbits(128):032x} {r.getrandbits(128):032x} {hx(p)} {mode}")
+            sm.append((cfgp, p, mode))
+    for (cfgp, p, mode), (ln, g) in zip(sm, run.go_only("sharedsrc", sl, go_timeout=120)):
+        parts = g.split(" || ")
+        if len(parts) != 2:
+            run.count("sharedsrc.crashed")
+            continue
+        run.nontriv(("sharedsrc", p, mode, ln.split()[2]))
+        if parts[0] != parts[1]:
+            run.violation("reseeding-one-context-rewrote-another's-stream", {"cfg": cfgp, "program": p, "shared_by": mode, "case": ln,
+                                                                             "after_the_other_was_reseeded": parts[0][:300], "alone": parts[1][:300]})
     return run.finish(
         trusted=["Lean 4.33 kernel", "axioms: propext, Quot.sound (+Classical.choice where simp uses it)",
                  "translator harness/extract (RngSites) — a wrong extraction would show as a failing replay oracle",
